@@ -248,6 +248,89 @@ let lsim_main (path : Stdlib.String.t) =
   close_in ic;
   print_string (Buffer.contents out)
 
+
+(* ---------- C10: switch compile + evaluate ---------- *)
+let rec read_bexpr t : bexpr =
+  match next t with
+  | "k" -> BLeaf (LKey (next_n t))
+  | "hk" -> let k = next_n t in let r = next_n t in BLeaf (LHistKey (k, r))
+  | "lt" -> let n = next_n t in let ms = next_n t in BLeaf (LLt (n, ms))
+  | "gt" -> let n = next_n t in let ms = next_n t in BLeaf (LGt (n, ms))
+  | "in" -> let r = next_n t in let y = next_n t in BLeaf (LInput (r, y))
+  | "hin" -> let r = next_n t in let y = next_n t in let c = next_n t in BLeaf (LHistInput (r, y, c))
+  | "ly" -> BLeaf (LLayer (next_n t))
+  | "bl" -> BLeaf (LBaseLayer (next_n t))
+  | "or" -> let n = next_int t in BOp (BOr, repeat n (fun () -> read_bexpr t))
+  | "and" -> let n = next_int t in BOp (BAnd, repeat n (fun () -> read_bexpr t))
+  | "not" -> let n = next_int t in BOp (BNot, repeat n (fun () -> read_bexpr t))
+  | s -> failwith ("bad bexpr token " ^ s)
+
+let run_swev (hist : Stdlib.String.t) (out : Buffer.t) =
+  let t = mk_toks hist in
+  let cases = ref [] in
+  let envs = ref [] in
+  while t.pos < Array.length t.arr do
+    match next t with
+    | "AST" ->
+      let nc = next_int t in
+      cases := repeat nc (fun () ->
+        let ni = next_int t in
+        let items = repeat ni (fun () -> read_bexpr t) in
+        let brk = next_int t = 1 in
+        (items, brk));
+      if next t <> ";" then failwith "expected ;"
+    | "ENV" ->
+      let expect s = if next t <> s then failwith ("expected " ^ s) in
+      expect "K"; let n = next_int t in let keys = repeat n (fun () -> next_n t) in
+      expect "C"; let n = next_int t in let coords = repeat n (fun () -> let x = next_n t in let y = next_n t in (x, y)) in
+      expect "HK"; let n = next_int t in let hk = repeat n (fun () -> let k = next_n t in let s = next_n t in (k, s)) in
+      expect "HI"; let n = next_int t in let hi = repeat n (fun () -> let x = next_n t in let y = next_n t in let s = next_n t in ((x, y), s)) in
+      expect "L"; let n = next_int t in let ls = repeat n (fun () -> next_n t) in
+      expect "D"; let d = next_n t in
+      envs := { e_keys = keys; e_coords = coords; e_hkeys = hk; e_hinputs = hi; e_layers = ls; e_default = d } :: !envs
+    | _ -> ()
+  done;
+  let envs = List.rev !envs in
+  let acs = List.mapi (fun i (items, brk) -> ((items, KeyCode (n_of_int i)), brk)) !cases in
+  let compiled = List.map compile_case acs in
+  List.iteri (fun i ((ops, _), _) ->
+    Buffer.add_string out (Printf.sprintf "OPS %d : %s\n" i (String.concat " " (List.map (fun o -> string_of_int (int_of_n o)) ops)))) compiled;
+  let idx_of = function KeyCode k -> string_of_int (int_of_n k) | _ -> "?" in
+  List.iteri (fun j env ->
+    let spec = List.map idx_of (cases_spec env acs) in
+    match switch_actions compiled env with
+    | Ok l ->
+      let m = List.map idx_of l in
+      if m = spec then Buffer.add_string out (Printf.sprintf "EV %d : %s\n" j (String.concat " " m))
+      else Buffer.add_string out (Printf.sprintf "EV %d : SPEC-DIFF model=[%s] spec=[%s]\n" j (String.concat " " m) (String.concat " " spec))
+    | _ -> Buffer.add_string out (Printf.sprintf "EV %d : PANIC\n" j)) envs
+
+let swev_main (path : Stdlib.String.t) =
+  let ic = open_in path in
+  let out = Buffer.create 65536 in
+  let hist = ref "" in
+  (try
+    while true do
+      let line = input_line ic in
+      if String.length line >= 5 && String.sub line 0 5 = "CASE " then begin
+        Buffer.add_string out line; Buffer.add_char out '\n'; hist := ""
+      end
+      else if String.length line >= 2 && String.sub line 0 2 = "H " then hist := String.sub line 2 (String.length line - 2)
+      else if line = "TRACE-BEGIN" then begin
+        Buffer.add_string out "TRACE-BEGIN\n";
+        (try run_swev !hist out
+         with Failure s -> Buffer.add_string out ("MODEL-ERROR " ^ s ^ "\n")
+            | Invalid_argument s -> Buffer.add_string out ("MODEL-ERROR " ^ s ^ "\n"));
+        Buffer.add_string out "TRACE-END\n"
+      end
+      else if String.length line >= 6 && String.sub line 0 6 = "PARSE-" then begin
+        Buffer.add_string out line; Buffer.add_char out '\n'
+      end
+    done
+  with End_of_file -> ());
+  close_in ic;
+  print_string (Buffer.contents out)
+
 (* ---------- C11 key tables ---------- *)
 let hex_decode (h : Stdlib.String.t) : Stdlib.String.t =
   String.init (String.length h / 2) (fun i -> Char.chr (int_of_string ("0x" ^ String.sub h (2 * i) 2)))
@@ -282,4 +365,5 @@ let () =
   match Array.to_list Sys.argv with
   | _ :: "lsim" :: path :: _ -> lsim_main path
   | _ :: "keys" :: _ -> keys_main ()
+  | _ :: "swev" :: path :: _ -> swev_main path
   | _ -> prerr_endline "usage: driver <lsim FILE|keys>"; exit 2
